@@ -455,7 +455,11 @@ def splice(lines, contracts, injections, counts, report, externals=()):
                 le = text.find('\n', f.open + hits[0].end())
                 ins.append((le + 1, 0, '\n'.join(body) + '\n', tag))
         counts['contracts-spliced'] = counts.get('contracts-spliced', 0) + 1
+    seen_ext = set()
     for kind, key, why in externals:
+        if (kind, key) in seen_ext or ('fnbody', key) in seen_ext and kind == 'fnbody':
+            continue
+        seen_ext.add((kind, key))
         tag = ('gen', 'external %s %s' % (kind, key))
         if kind == 'mod':
             hit = [(k, o, c) for k, o, c in mods if k == key]
@@ -621,6 +625,7 @@ def extract(repo, verif, cfg, extra_external=()):
     macro_external(lines, counts)
     contracts, injections = load_contracts(os.path.join(verif, 'contracts', 'verus'))
     externals = load_externals(os.path.join(verif, 'contracts', 'verus', 'externals.txt'))
+    externals = list(externals) + list(extra_external)
     report['externals'] = externals
     body = splice(lines, contracts, injections, counts, report, externals)
     prelude = open(os.path.join(verif, 'contracts', 'prelude.rs')).read().split('\n')
